@@ -70,6 +70,7 @@ func (propC19) Gen(r *Rand) *Plan {
 	case 0:
 		p.Scenario = "shared-calculator"
 		g := NewExprGen(r)
+		g.Mixed = r.Bool(0.5)
 		text := g.Top()
 		p.Setup = []Op{{Op: "SetExpression", S: text}}
 		for t := 0; t < ntasks; t++ {
